@@ -86,7 +86,13 @@ class State:
         return s
 
     def assume(self, f):
-        self.pc.append(f)
+        # keep conjuncts apart: quantifier-free ones take part in the cheap
+        # feasibility checks even when a sibling conjunct is quantified
+        if z3.is_and(f):
+            for c in f.children():
+                self.assume(c)
+        else:
+            self.pc.append(f)
 
 
 def list_arrays(elem):
